@@ -15,10 +15,17 @@ class VariableBoundMinPropagator(VariableBoundPropagator):
         raise NotImplementedError("min")
             
     def propagate(self):
+        range_l = self.target.domain.range_l
+        
+        if len(range_l) == 0:
+            # Empty domain (unsatisfiable system): nothing to trim
+            return False
+        
         # Obtain the max value from the
         min_v = self.min()
         
-        range_l = self.target.domain.range_l
+        if min_v is None:
+            return False
         
 #        print("Min: range_l=" + str(range_l) + " min_v=" + str(min_v))
 
